@@ -130,6 +130,26 @@ def rule_setitem(ctx, rule='R14.c'):
         others = [k for k, v in c.items() if k not in (('A', 'B'), ('B', 'A')) and not is_none(v)]
         if others:
             bad.append("T['A','B'] = X also writes %s" % others)
+        # (1b) a numpy array as value: stored as a copy (never the caller's array, whatever its memory layout), one per pair
+        w = World(ctx.prog, PT)
+        w.ip.declare('curve0', 'curve')
+        A0 = Arr(N.sym('curve0'), 'caller_array', w.ip)
+        w.call('__setitem__', w.key(['A', 'B'], ['C']), A0)
+        c = w.cells()
+
+        def root(v):
+            while hasattr(v, 'base'):
+                v = v.base
+            return v
+        got = [root(c[p]) for p in (('A', 'C'), ('B', 'C'))]
+        if any(is_none(x) for x in got):
+            bad.append('an array value is not stored')
+        else:
+            if any(x is A0 for x in got):
+                bad.append("an ndarray value is stored without copying (the table holds the caller's own array: later in-place "
+                           "changes on either side show up on the other)")
+            elif got[0] is got[1]:
+                bad.append('one ndarray copy is shared by several pairs')
         # (2) list keys: 2 x 2 pairs at once
         w = World(ctx.prog, PT)
         X = w.payload('X')
@@ -153,6 +173,24 @@ def rule_setitem(ctx, rule='R14.c'):
         others = [k for k, v in c.items() if k not in prim and (k[1], k[0]) not in prim and not is_none(v)]
         if others:
             bad.append('a list-key assignment also writes %s' % others)
+        # (2b) overlapping, non-square key lists, on a table that already holds other values: every addressed pair gets
+        # the new value in both orders (last write wins), nothing else changes
+        for k1, k2 in ((['A', 'B', 'C'], 'A'), (['A', 'B', 'C'], ['A', 'B']), ('C', ['A', 'B', 'C']), (['B', 'A'], ['A', 'B', 'D'])):
+            w = World(ctx.prog, PT)
+            w.call('__setitem__', w.key(list(LABELS), list(LABELS)), w.payload('old'))
+            w.call('__setitem__', w.key(k1, k2), w.payload('new'))
+            c = w.cells()
+            l1 = k1 if isinstance(k1, list) else [k1]
+            l2 = k2 if isinstance(k2, list) else [k2]
+            addressed = {(a, b) for a in l1 for b in l2} | {(b, a) for a in l1 for b in l2}
+            stale = sorted(p for p in addressed if tag(c[p]) != 'new')
+            touched = sorted(p for p in c if p not in addressed and tag(c[p]) != 'old')
+            if stale:
+                bad.append('after T[%r,%r] = new (on a filled table) the pairs %s still hold the old value' % (k1, k2, stale[:4]))
+            if touched:
+                bad.append('T[%r,%r] = new also changes %s' % (k1, k2, touched[:4]))
+            if not stale and any(c[(a, b)] is not c[(b, a)] for (a, b) in addressed):
+                bad.append('after T[%r,%r] = new the two orders of some pair hold different objects' % (k1, k2))
         # (3) whole table, then an overwrite in the other order: last write wins for both orders
         w = World(ctx.prog, PT)
         w.call('__setitem__', w.key(list(LABELS), list(LABELS)), w.payload('X'))
